@@ -9,6 +9,7 @@
 #include "dbus/dbus-marshal-validate.h"
 #include "dbus/dbus-signature.h"
 #include "grammar_ref.h"
+#include "signature_ref.h"
 int main (int argc, char **argv)
 {
   static unsigned char buf[1 << 16]; int n = 0, got = -1, want = -1; DBusString s; const char *fn, *hex;
@@ -23,6 +24,8 @@ int main (int argc, char **argv)
   else if (!strcmp (fn, "_dbus_validate_bus_name")) { got = _dbus_validate_bus_name (&s, 0, n); want = ref_bus_name_full (buf, n, 0); }
   else if (!strcmp (fn, "_dbus_validate_bus_namespace")) { got = _dbus_validate_bus_namespace (&s, 0, n); want = ref_bus_name_full (buf, n, 1); }
   else if (!strcmp (fn, "_dbus_validate_path")) { got = _dbus_validate_path (&s, 0, n); want = ref_path (buf, n); }
+  else if (!strcmp (fn, "_dbus_validate_signature_with_reason")) { got = (_dbus_validate_signature_with_reason (&s, 0, n) == DBUS_VALID); want = spec_signature (buf, n);
+      printf ("public API dbus_signature_validate -> %d\n", (int) dbus_signature_validate ((const char *) buf, NULL)); }
   else { fprintf (stderr, "unknown function %s\n", fn); return 2; }
   printf ("input (%d bytes): ", n); for (int i = 0; i < n; i++) printf (buf[i] >= 32 && buf[i] < 127 ? "%c" : "\\x%02x", buf[i]); printf ("\n");
   printf ("real %s -> %d ; specification -> %d\n", fn, got, want);
